@@ -2,6 +2,7 @@
 import random
 
 from vmon import gens as G
+from vmon.gens import THOROUGH_SCALE as TS
 from vmon import oracles as O
 from vmon import search as S
 
@@ -199,6 +200,12 @@ def generate(tier, seed):
             yield "formats", {"engine": eng, "seqs": W1, "k": 2, "mode": mode}, True
             for c in G.CONTAINERS:
                 yield "container", {"engine": eng, "seqs": W1, "k": 1, "mode": mode, "container": c}, True
+    for eng in ("SymdelDB.lookup", "LookupDB.lookup"):
+        for mode in ("lev", "hamming", "custom"):
+            yield "formats", {"engine": eng, "seqs": W1, "seqs2": W2, "k": 1, "mode": mode}, True
+            yield "formats", {"engine": eng, "seqs": W2, "seqs2": W1, "k": 2, "mode": mode}, True
+            for c in ("series_shifted", "series_permuted", "ndarray_O", "tuple"):
+                yield "container", {"engine": eng, "seqs": W1, "seqs2": W2, "k": 1, "mode": mode, "container": c, "container2": c}, True
     for eng in CROSS_ENGINES:
         for mode in ("lev", "hamming"):
             yield "formats", {"engine": eng, "seqs": W1, "seqs2": W2, "k": 1, "mode": mode}, True
@@ -216,7 +223,7 @@ def generate(tier, seed):
         for v in range(3):
             yield "invalid", {"engine": eng, "cls": "non-string-seqs2", "variant": v}, True
     pools = [G.universe("AC", 5), G.universe("ACD", 4), G.universe("AWY", 3)]
-    n_rand = 4000 if thorough else 260
+    n_rand = 4000 * TS if thorough else 260
     for i in range(n_rand):
         pool = pools[i % len(pools)]
         seqs = G.small_multiset(rng, pool, 1, 30)
@@ -225,13 +232,15 @@ def generate(tier, seed):
         k = rng.choice([1, 1, 2])
         mode = rng.choice(["lev", "lev", "hamming", "custom"])
         cross = i % 3 == 0
-        eng = rng.choice(CROSS_ENGINES if cross else ENGINES)
+        eng = rng.choice(CROSS_ENGINES + ["SymdelDB.lookup", "LookupDB.lookup"] if cross else ENGINES)
         seqs2 = None
         if cross:
             seqs2 = G.small_multiset(rng, pool, 1, 20)
             if len(seqs2) == 2:
                 seqs2.append(rng.choice(pool))
         if eng == "hash_based" and k == 2 and max(len(s) for s in seqs) > 5:
+            k = 1
+        if eng == "LookupDB.lookup" and k == 2 and max(len(s) for s in seqs2) > 5:
             k = 1
         if i % 2 == 0:
             p = {"engine": eng, "seqs": seqs, "seqs2": seqs2, "k": k, "mode": mode}
